@@ -35,7 +35,49 @@ def run(prog, an, rep):
     rep.run_rules(prog, an, [
         build_gate, outcome, recursive_lookup_literals, lookup_args,
         process_selection, force_merge_wiring, is_needed_rules,
-        merge_queues_args, nothing_moves_without_selection])
+        merge_queues_args, nothing_moves_without_selection,
+        version_keys])
+
+
+def version_keys(prog, an, rep):
+    """_process / validate match queues (keyed by the version tuple parsed
+    from a q/ name) against merge paths (version tuples of destination
+    branches): the tuple arity per kind must agree, or a queue silently
+    drops out of every merge path and its build status is never read."""
+    R = 'C03.SIB.version-keys'
+    want = {'DevelopmentBranch': 2, 'StabilizationBranch': 3,
+            'HotfixBranch': 4}
+    for name, n in want.items():
+        k = prog.cls(BR + '.' + name)
+        m = prog.lookup_method(k, 'version_t')
+        rep.evaluated()
+        rets = [r for r in walk_local(m.node, include_root=False)
+                if isinstance(r, ast.Return)] if m else []
+        ar = {len(r.value.elts) if isinstance(r.value, ast.Tuple) else None
+              for r in rets}
+        rep.check(ar == {n}, R, '%s.version_t is a %d-tuple' % (name, n),
+                  (m or k).where(), '%s.version_t resolves to %s returning '
+                  'tuples of arity %s: it no longer matches the key of its '
+                  'q/ branch' % (name, m.qname if m else None, sorted(
+                      map(str, ar))))
+    g = need_func(an, BR + '.GWFBranch.version_t')
+    from .c17 import _returns
+    c = an.cfg(g)
+    for micro, hf, n in ((True, True, 4), (True, False, 3), (False, True, 2),
+                         (False, False, 2)):
+        env = {'self.micro is not None': micro,
+               'self.hfrev is not None': hf}
+        got = _returns(an, g, c, env)
+        rep.evaluated()
+        ok = len(got) == 1 and all(isinstance(x, str) and
+                                   x.count(',') == n - 1 for x in got)
+        rep.check(ok, R, 'GWFBranch.version_t: micro=%s hfrev=%s -> '
+                  '%d-tuple' % ('set' if micro else 'None',
+                                'set' if hf else 'None', n), g.where(),
+                  'a q/ or w/ name with micro %s / hfrev %s parses back to '
+                  '%s (a micro or hfrev of 0 must still count)' % (
+                      'present' if micro else 'absent',
+                      'present' if hf else 'absent', sorted(map(str, got))))
 
 
 def nothing_moves_without_selection(prog, an, rep):
@@ -493,10 +535,16 @@ def is_needed_rules(prog, an, rep):
                       'the loop continues when an integration branch does '
                       'not contain its destination tip')
         it = src(lp.iter)
-        rep.check('wbranches' in it and 'dst_branches' in it and
-                  it.startswith('zip('), R,
-                  f.qname + ': loop pairs wbranches with dst_branches',
-                  f.where(lp), 'loop iterates %s' % it, detail=it)
+        ok_it = isinstance(lp.iter, ast.Call) and \
+            src(lp.iter.func) == 'zip' and len(lp.iter.args) == 2 and \
+            src(lp.iter.args[0]) == f.params[1] and \
+            src(lp.iter.args[1]) == f.params[0] + \
+            '.git.cascade.dst_branches'
+        rep.check(ok_it, R, f.qname + ': loop pairs the whole wbranches '
+                  'with the whole cascade (branch n with target n)',
+                  f.where(lp), 'loop iterates %s: integration branches are '
+                  'no longer compared with their own targets' % it,
+                  detail=it)
     gates['every integration branch contains its destination tip'] = \
         loop_gate
     rep.floor('C03 is_needed falsy returns', len(falsy_returns), 2)
